@@ -248,7 +248,9 @@ class Field(
 
         # Field ancillary variables
         x = [
-            _print_item(self, key, anc, self.constructs.data_axes()[key])
+            _print_item(
+                self, key, anc, self.constructs.data_axes().get(key, ())
+            )
             for key, anc in sorted(self.field_ancillaries(todict=True).items())
         ]
         if x:
@@ -1692,7 +1694,8 @@ class Field(
                 )
             )
             out.append(
-                f"{name}.set_construct(c, axes={self.get_data_axes(key)}, "
+                f"{name}.set_construct(c, "
+                f"axes={self.get_data_axes(key, default=None)}, "
                 f"key={key!r}, copy=False)"
             )
 
@@ -1808,7 +1811,7 @@ class Field(
             string.append(
                 value.dump(
                     display=False,
-                    _axes=constructs_data_axes[cid],
+                    _axes=constructs_data_axes.get(cid),
                     _axis_names=axis_to_name,
                     _level=_level,
                 )
